@@ -1,1 +1,447 @@
-// harnesses for vk_mod
+// Child module of vhost::vhost_kern.  C19: every operation issues exactly the UAPI ioctl with the UAPI
+// layout.  The oracle (`uapi::*`) is generated at check time from /usr/include/linux/vhost.h by uapi/gen.c.
+use super::*;
+use crate::backend::VhostBackend;
+use libc::{c_int, c_ulong};
+use vm_memory::{GuestMemoryMmap, GuestRegionMmap, MmapRegion};
+
+#[allow(dead_code)]
+pub(crate) mod uapi {
+    include!(concat!(env!("VHOST_VERIF_DIR"), "/.work/uapi_table.rs"));
+}
+
+/// what the ghost kernel saw on the control descriptor
+pub(crate) struct KGhost {
+    pub calls: usize,
+    pub req: u64,
+    pub fd: i32,
+    pub arg: [u8; 64],
+    pub arg_len: usize,
+    pub has_arg: bool,
+    pub ptr_len: usize,   // bytes to capture for ioctl_with_ptr (variable-size structs)
+    pub wb: [u8; 16],     // bytes the kernel writes back into a mutable argument
+    pub wb_off: usize,    // ... starting at this offset
+    pub wb_len: usize,
+    pub wcalls: usize,    // write(2) calls
+    pub wbuf: [u8; 64],
+    pub wlen: usize,
+    pub marker: u64,
+}
+pub(crate) static mut KG: KGhost = KGhost {
+    calls: 0, req: 0, fd: -1, arg: [0; 64], arg_len: 0, has_arg: false, ptr_len: 0, wb: [0; 16], wb_off: 0, wb_len: 0,
+    wcalls: 0, wbuf: [0; 64], wlen: 0, marker: 0x4b47_686f_7374_0001,
+};
+#[allow(static_mut_refs)]
+pub(crate) fn kg() -> &'static mut KGhost {
+    // SAFETY: single-threaded harness
+    unsafe { &mut KG }
+}
+macro_rules! cap8 {
+    ($dst:expr, $src:expr, $n:expr, $k:expr) => {
+        if $n > $k {
+            $dst[$k] = *$src.add($k);
+        }
+    };
+}
+/// capture up to 64 argument bytes without loops
+unsafe fn capture(dst: &mut [u8; 64], src: *const u8, n: usize) {
+    cap8!(dst, src, n, 0); cap8!(dst, src, n, 1); cap8!(dst, src, n, 2); cap8!(dst, src, n, 3);
+    cap8!(dst, src, n, 4); cap8!(dst, src, n, 5); cap8!(dst, src, n, 6); cap8!(dst, src, n, 7);
+    cap8!(dst, src, n, 8); cap8!(dst, src, n, 9); cap8!(dst, src, n, 10); cap8!(dst, src, n, 11);
+    cap8!(dst, src, n, 12); cap8!(dst, src, n, 13); cap8!(dst, src, n, 14); cap8!(dst, src, n, 15);
+    cap8!(dst, src, n, 16); cap8!(dst, src, n, 17); cap8!(dst, src, n, 18); cap8!(dst, src, n, 19);
+    cap8!(dst, src, n, 20); cap8!(dst, src, n, 21); cap8!(dst, src, n, 22); cap8!(dst, src, n, 23);
+    cap8!(dst, src, n, 24); cap8!(dst, src, n, 25); cap8!(dst, src, n, 26); cap8!(dst, src, n, 27);
+    cap8!(dst, src, n, 28); cap8!(dst, src, n, 29); cap8!(dst, src, n, 30); cap8!(dst, src, n, 31);
+    cap8!(dst, src, n, 32); cap8!(dst, src, n, 33); cap8!(dst, src, n, 34); cap8!(dst, src, n, 35);
+    cap8!(dst, src, n, 36); cap8!(dst, src, n, 37); cap8!(dst, src, n, 38); cap8!(dst, src, n, 39);
+    cap8!(dst, src, n, 40); cap8!(dst, src, n, 41); cap8!(dst, src, n, 42); cap8!(dst, src, n, 43);
+    cap8!(dst, src, n, 44); cap8!(dst, src, n, 45); cap8!(dst, src, n, 46); cap8!(dst, src, n, 47);
+    cap8!(dst, src, n, 48); cap8!(dst, src, n, 49); cap8!(dst, src, n, 50); cap8!(dst, src, n, 51);
+    cap8!(dst, src, n, 52); cap8!(dst, src, n, 53); cap8!(dst, src, n, 54); cap8!(dst, src, n, 55);
+    cap8!(dst, src, n, 56); cap8!(dst, src, n, 57); cap8!(dst, src, n, 58); cap8!(dst, src, n, 59);
+    cap8!(dst, src, n, 60); cap8!(dst, src, n, 61); cap8!(dst, src, n, 62); cap8!(dst, src, n, 63);
+}
+unsafe fn note(fd: i32, req: c_ulong) {
+    let k = kg();
+    k.calls += 1;
+    k.req = req as u64;
+    k.fd = fd;
+}
+macro_rules! wb1 {
+    ($p:expr, $k:expr, $i:expr) => {
+        if $i < $k.wb_len {
+            *$p.add($k.wb_off + $i) = $k.wb[$i];
+        }
+    };
+}
+unsafe fn writeback(p: *mut u8) {
+    let k = kg();
+    wb1!(p, k, 0); wb1!(p, k, 1); wb1!(p, k, 2); wb1!(p, k, 3); wb1!(p, k, 4); wb1!(p, k, 5); wb1!(p, k, 6); wb1!(p, k, 7);
+    wb1!(p, k, 8); wb1!(p, k, 9); wb1!(p, k, 10); wb1!(p, k, 11); wb1!(p, k, 12); wb1!(p, k, 13); wb1!(p, k, 14); wb1!(p, k, 15);
+}
+// ---- stubs for vmm_sys_util::ioctl::* (the kernel always succeeds: the failure path reads errno through
+// __errno_location, which Kani cannot model; it is outside the claim)
+pub(crate) unsafe fn k_ioctl<F: AsRawFd>(fd: &F, req: c_ulong) -> c_int {
+    note(fd.as_raw_fd(), req);
+    kg().has_arg = false;
+    0
+}
+pub(crate) unsafe fn k_ioctl_with_ref<F: AsRawFd, T>(fd: &F, req: c_ulong, arg: &T) -> c_int {
+    note(fd.as_raw_fd(), req);
+    let k = kg();
+    k.has_arg = true;
+    k.arg_len = core::mem::size_of::<T>();
+    capture(&mut k.arg, arg as *const T as *const u8, core::mem::size_of::<T>());
+    0
+}
+pub(crate) unsafe fn k_ioctl_with_mut_ref<F: AsRawFd, T>(fd: &F, req: c_ulong, arg: &mut T) -> c_int {
+    note(fd.as_raw_fd(), req);
+    let k = kg();
+    k.has_arg = true;
+    k.arg_len = core::mem::size_of::<T>();
+    capture(&mut k.arg, arg as *const T as *const u8, core::mem::size_of::<T>());
+    writeback(arg as *mut T as *mut u8);
+    0
+}
+pub(crate) unsafe fn k_ioctl_with_ptr<F: AsRawFd, T>(fd: &F, req: c_ulong, arg: *const T) -> c_int {
+    note(fd.as_raw_fd(), req);
+    let k = kg();
+    k.has_arg = true;
+    k.arg_len = k.ptr_len;
+    capture(&mut k.arg, arg as *const u8, k.ptr_len);
+    0
+}
+pub(crate) unsafe extern "C" fn k_write(fd: c_int, buf: *const c_void, count: libc::size_t) -> ssize_t {
+    let k = kg();
+    k.wcalls += 1;
+    k.fd = fd;
+    k.wlen = count;
+    capture(&mut k.wbuf, buf as *const u8, count);
+    count as ssize_t
+}
+pub(crate) unsafe extern "C" fn k_sysconf(_name: c_int) -> libc::c_long {
+    1 // "page size" 1: every pointer is page aligned for MmapRegion::build_raw
+}
+pub(crate) fn k_alloc_error(_l: std::alloc::Layout) -> ! {
+    kani::assume(false);
+    loop {}
+}
+
+pub(crate) const KFD: RawFd = 9;
+pub(crate) const MEM_SIZE: usize = 0x4000;
+#[repr(align(4096))]
+pub(crate) struct Backing(pub [u8; 64]);
+pub(crate) static mut BACKING: Backing = Backing([0x5a; 64]);
+/// one guest region [base, base+MEM_SIZE) whose host mapping starts at BACKING (never dereferenced)
+pub(crate) fn guest_mem(base: u64) -> &'static GuestMemoryMmap<()> {
+    #[allow(static_mut_refs)]
+    // SAFETY: the mapping is only used for address arithmetic in these harnesses
+    let region = unsafe { MmapRegion::<()>::build_raw(BACKING.0.as_mut_ptr(), MEM_SIZE, 0, 0) }.unwrap();
+    let gr = GuestRegionMmap::new(region, GuestAddress(base)).unwrap();
+    Box::leak(Box::new(GuestMemoryMmap::from_regions(vec![gr]).unwrap()))
+}
+/// guest memory without regions: enough for every operation that never looks at guest addresses
+pub(crate) fn empty_mem() -> &'static GuestMemoryMmap<()> {
+    Box::leak(Box::new(GuestMemoryMmap::<()>::new()))
+}
+pub(crate) fn host_base() -> u64 {
+    #[allow(static_mut_refs)]
+    // SAFETY: address only
+    unsafe { BACKING.0.as_ptr() as u64 }
+}
+
+pub(crate) struct K<'a> {
+    mem: &'a GuestMemoryMmap<()>,
+    acked: u64,
+}
+impl<'a> AsRawFd for K<'a> {
+    fn as_raw_fd(&self) -> RawFd { KFD }
+}
+impl<'a> VhostKernBackend for K<'a> {
+    type AS = &'a GuestMemoryMmap<()>;
+    fn mem(&self) -> &Self::AS { &self.mem }
+}
+impl<'a> VhostKernFeatures for K<'a> {
+    fn get_backend_features_acked(&self) -> u64 { self.acked }
+    fn set_backend_features_acked(&mut self, features: u64) { self.acked = features; }
+}
+
+pub(crate) fn a32(o: usize) -> u32 { crate_rd32(&kg().arg, o) }
+pub(crate) fn a64(o: usize) -> u64 { (crate_rd32(&kg().arg, o) as u64) | ((crate_rd32(&kg().arg, o + 4) as u64) << 32) }
+fn crate_rd32(b: &[u8; 64], o: usize) -> u32 {
+    (b[o] as u32) | ((b[o + 1] as u32) << 8) | ((b[o + 2] as u32) << 16) | ((b[o + 3] as u32) << 24)
+}
+pub(crate) fn w64(o: usize) -> u64 { (crate_rd32(&kg().wbuf, o) as u64) | ((crate_rd32(&kg().wbuf, o + 4) as u64) << 32) }
+pub(crate) fn w32(o: usize) -> u32 { crate_rd32(&kg().wbuf, o) }
+pub(crate) fn reset() {
+    let k = kg();
+    k.calls = 0; k.req = 0; k.has_arg = false; k.arg_len = 0; k.wcalls = 0; k.wlen = 0;
+}
+pub(crate) fn expect_ioctl(req: u64, len: usize) {
+    let k = kg();
+    assert!(k.calls == 1, "C19: exactly one ioctl per operation");
+    assert!(k.fd == KFD, "C19: ioctl on the backend's descriptor");
+    assert!(k.req == req, "C19: request number = UAPI (direction, type, number, size)");
+    assert!(k.has_arg == (len != 0) && (len == 0 || k.arg_len == len), "C19: argument size = UAPI struct size");
+}
+
+macro_rules! k_proof {
+    ($(#[$m:meta])* fn $name:ident() $body:block) => {
+        $(#[$m])*
+        #[kani::proof]
+        #[kani::unwind(10)]
+        #[kani::stub(vmm_sys_util::ioctl::ioctl, k_ioctl)]
+        #[kani::stub(vmm_sys_util::ioctl::ioctl_with_ref, k_ioctl_with_ref)]
+        #[kani::stub(vmm_sys_util::ioctl::ioctl_with_mut_ref, k_ioctl_with_mut_ref)]
+        #[kani::stub(vmm_sys_util::ioctl::ioctl_with_ptr, k_ioctl_with_ptr)]
+        #[kani::stub(std::alloc::handle_alloc_error, k_alloc_error)]
+        fn $name() $body
+    };
+}
+pub(crate) use k_proof;
+macro_rules! k_proof3 {
+    ($(#[$m:meta])* fn $name:ident() $body:block) => {
+        $(#[$m])*
+        #[kani::proof]
+        #[kani::unwind(3)]
+        #[kani::stub(vmm_sys_util::ioctl::ioctl, k_ioctl)]
+        #[kani::stub(vmm_sys_util::ioctl::ioctl_with_ref, k_ioctl_with_ref)]
+        #[kani::stub(vmm_sys_util::ioctl::ioctl_with_mut_ref, k_ioctl_with_mut_ref)]
+        #[kani::stub(vmm_sys_util::ioctl::ioctl_with_ptr, k_ioctl_with_ptr)]
+        #[kani::stub(std::alloc::handle_alloc_error, k_alloc_error)]
+        fn $name() $body
+    };
+}
+
+fn mk() -> K<'static> {
+    K { mem: empty_mem(), acked: kani::any() }
+}
+const ST: &str = "";
+
+// @harness props=C19 tier=quick reach=off bound="get/set_features, get/set_backend_features: all 64-bit values" stubs="vmm_sys_util::ioctl::* (ghost kernel: captures request+argument, writes back symbolic result, always succeeds), sysconf"
+k_proof! { fn c19_features() {
+    let mut k = mk();
+    let back: u64 = kani::any();
+    kg().wb = [0; 16];
+    kg().wb_len = 8;
+    let bb = back.to_le_bytes();
+    kg().wb[..8].copy_from_slice(&bb);
+    let r = k.get_features();
+    expect_ioctl(uapi::U_VHOST_GET_FEATURES, 8);
+    assert!(matches!(r, Ok(v) if v == back), "C19: returns what the kernel wrote back");
+    std::mem::forget(r);
+    reset();
+    let f: u64 = kani::any();
+    let r = k.set_features(f);
+    expect_ioctl(uapi::U_VHOST_SET_FEATURES, 8);
+    assert!(a64(0) == f && r.is_ok(), "C19: argument carries the caller's value");
+    std::mem::forget(r);
+    reset();
+    let r = k.get_backend_features();
+    expect_ioctl(uapi::U_VHOST_GET_BACKEND_FEATURES, 8);
+    assert!(matches!(r, Ok(v) if v == back));
+    std::mem::forget(r);
+    reset();
+    kg().wb_len = 0;
+    let r = k.set_backend_features(f);
+    expect_ioctl(uapi::U_VHOST_SET_BACKEND_FEATURES, 8);
+    assert!(a64(0) == f && r.is_ok() && k.get_backend_features_acked() == f);
+    std::mem::forget(r);
+} }
+
+// @harness props=C19 tier=quick reach=off bound="set_owner, reset_owner, set_log_base (with/without region), set_log_fd: all values" stubs="vmm_sys_util::ioctl::*, sysconf"
+k_proof! { fn c19_owner_log() {
+    let k = mk();
+    let r = k.set_owner();
+    expect_ioctl(uapi::U_VHOST_SET_OWNER, 0);
+    std::mem::forget(r);
+    reset();
+    let r = k.reset_owner();
+    expect_ioctl(uapi::U_VHOST_RESET_OWNER, 0);
+    std::mem::forget(r);
+    reset();
+    let base: u64 = kani::any();
+    let r = k.set_log_base(base, None);
+    expect_ioctl(uapi::U_VHOST_SET_LOG_BASE, 8);
+    assert!(a64(0) == base && r.is_ok());
+    std::mem::forget(r);
+    reset();
+    let r = k.set_log_base(base, Some(VhostUserDirtyLogRegion { mmap_size: kani::any(), mmap_offset: kani::any(), mmap_handle: 3 }));
+    assert!(r.is_err() && kg().calls == 0, "C19: a log region is refused before any ioctl");
+    std::mem::forget(r);
+    reset();
+    let fd: RawFd = kani::any();
+    let r = k.set_log_fd(fd);
+    expect_ioctl(uapi::U_VHOST_SET_LOG_FD, 4);
+    assert!(a32(0) == fd as u32 && r.is_ok());
+    std::mem::forget(r);
+} }
+
+// @harness props=C19 tier=quick reach=off bound="set_vring_num, set_vring_base, get_vring_base: all queue indexes (usize) and 16-bit values" stubs="vmm_sys_util::ioctl::*, sysconf"
+k_proof! { fn c19_vring_state() {
+    let k = mk();
+    let qi: usize = kani::any();
+    let num: u16 = kani::any();
+    let r = k.set_vring_num(qi, num);
+    expect_ioctl(uapi::U_VHOST_SET_VRING_NUM, uapi::USZ_VRING_STATE);
+    assert!(a32(uapi::UOFF_VRING_STATE_INDEX) == qi as u32 && a32(uapi::UOFF_VRING_STATE_NUM) == num as u32 && r.is_ok());
+    std::mem::forget(r);
+    reset();
+    let r = k.set_vring_base(qi, num);
+    expect_ioctl(uapi::U_VHOST_SET_VRING_BASE, uapi::USZ_VRING_STATE);
+    assert!(a32(uapi::UOFF_VRING_STATE_INDEX) == qi as u32 && a32(uapi::UOFF_VRING_STATE_NUM) == num as u32);
+    std::mem::forget(r);
+    reset();
+    let back: u32 = kani::any();
+    kg().wb[..4].copy_from_slice(&back.to_le_bytes());
+    kg().wb_off = uapi::UOFF_VRING_STATE_NUM;
+    kg().wb_len = 4;
+    let r = k.get_vring_base(qi);
+    expect_ioctl(uapi::U_VHOST_GET_VRING_BASE, uapi::USZ_VRING_STATE);
+    assert!(a32(uapi::UOFF_VRING_STATE_INDEX) == qi as u32);
+    assert!(matches!(r, Ok(v) if v == back), "C19: returns the base the kernel wrote back");
+    std::mem::forget(r);
+} }
+
+// @harness props=C19 tier=quick reach=off bound="set_vring_kick/call/err: all queue indexes" stubs="vmm_sys_util::ioctl::*, sysconf"
+k_proof! { fn c19_vring_files() {
+    use std::os::unix::io::FromRawFd;
+    let k = mk();
+    let qi: usize = kani::any();
+    // SAFETY: descriptor number only
+    let ev = std::mem::ManuallyDrop::new(unsafe { EventFd::from_raw_fd(33) });
+    let r = k.set_vring_kick(qi, &ev);
+    expect_ioctl(uapi::U_VHOST_SET_VRING_KICK, uapi::USZ_VRING_FILE);
+    assert!(a32(uapi::UOFF_VRING_FILE_INDEX) == qi as u32 && a32(uapi::UOFF_VRING_FILE_FD) == 33);
+    std::mem::forget(r);
+    reset();
+    let r = k.set_vring_call(qi, &ev);
+    expect_ioctl(uapi::U_VHOST_SET_VRING_CALL, uapi::USZ_VRING_FILE);
+    assert!(a32(uapi::UOFF_VRING_FILE_INDEX) == qi as u32 && a32(uapi::UOFF_VRING_FILE_FD) == 33);
+    std::mem::forget(r);
+    reset();
+    let r = k.set_vring_err(qi, &ev);
+    expect_ioctl(uapi::U_VHOST_SET_VRING_ERR, uapi::USZ_VRING_FILE);
+    assert!(a32(uapi::UOFF_VRING_FILE_INDEX) == qi as u32 && a32(uapi::UOFF_VRING_FILE_FD) == 33);
+    std::mem::forget(r);
+} }
+
+fn mem_table(n: usize) {
+    let k = mk();
+    let r0 = VhostUserMemoryRegionInfo { guest_phys_addr: kani::any(), memory_size: kani::any(), userspace_addr: kani::any(), mmap_offset: kani::any(), mmap_handle: 3 };
+    let r1 = VhostUserMemoryRegionInfo { guest_phys_addr: kani::any(), memory_size: kani::any(), userspace_addr: kani::any(), mmap_offset: kani::any(), mmap_handle: 4 };
+    let regs = [r0, r1];
+    kg().ptr_len = uapi::UOFF_MEMORY_REGIONS + n * uapi::USZ_MEMORY_REGION; // what the kernel reads: header + nregions entries
+    let r = k.set_mem_table(&regs[..n]);
+    kani::cover!(r.is_ok() == (n > 0));
+    if n == 0 {
+        assert!(r.is_err() && kg().calls == 0, "C19: empty table refused before any ioctl");
+    } else {
+        assert!(r.is_ok() && kg().calls == 1 && kg().req == uapi::U_VHOST_SET_MEM_TABLE && kg().fd == KFD);
+        assert!(a32(uapi::UOFF_MEMORY_NREGIONS) == n as u32, "C19: region count");
+        let o = uapi::UOFF_MEMORY_REGIONS;
+        assert!(a64(o + uapi::UOFF_MEMORY_REGION_GPA) == r0.guest_phys_addr && a64(o + uapi::UOFF_MEMORY_REGION_SIZE) == r0.memory_size
+            && a64(o + uapi::UOFF_MEMORY_REGION_UADDR) == r0.userspace_addr, "C19: region 0 at UAPI offsets");
+        if n == 2 {
+            let o = o + uapi::USZ_MEMORY_REGION;
+            assert!(a64(o + uapi::UOFF_MEMORY_REGION_GPA) == r1.guest_phys_addr && a64(o + uapi::UOFF_MEMORY_REGION_SIZE) == r1.memory_size
+                && a64(o + uapi::UOFF_MEMORY_REGION_UADDR) == r1.userspace_addr, "C19: region 1 at UAPI offsets");
+        }
+    }
+    std::mem::forget(r);
+}
+// @harness props=C19 tier=quick reach=off bound="set_mem_table with 2 regions: all 64-bit region values (the region count is concrete: a symbolic count makes the flexible-array allocation symbolic)" stubs="vmm_sys_util::ioctl::*"
+k_proof! { fn c19_mem_table_2() { mem_table(2) } }
+// @harness props=C19 tier=quick reach=off bound="set_mem_table with 1 region: all 64-bit region values" stubs="vmm_sys_util::ioctl::*"
+k_proof! { fn c19_mem_table_1() { mem_table(1) } }
+// @harness props=C19 tier=quick reach=off bound="set_mem_table with an empty table: refused, no ioctl" stubs="vmm_sys_util::ioctl::*"
+k_proof! { fn c19_mem_table_0() { mem_table(0) } }
+
+/// reference validity of a ring configuration against one guest region [base, base+MEM_SIZE)
+pub(crate) fn ref_ring_valid(c: &VringConfigData, base: u64, check_addrs: bool) -> bool {
+    let q = c.queue_size as u64;
+    if q == 0 || q > c.queue_max_size as u64 || (q & (q - 1)) != 0 {
+        return false;
+    }
+    if c.flags & 1 != 0 && c.log_addr.is_none() {
+        return false;
+    }
+    if !check_addrs {
+        return true;
+    }
+    let inr = |a: u64, len: u64| -> bool {
+        // last byte + 1 must still be an address inside the region (the library's own notion: end address in range)
+        match a.checked_add(len) {
+            Some(e) => e >= base && e < base + MEM_SIZE as u64,
+            None => false,
+        }
+    };
+    inr(c.desc_table_addr, 16 * q) && inr(c.avail_ring_addr, 6 + 2 * q) && inr(c.used_ring_addr, 6 + 8 * q)
+}
+
+// Kernel-vhost set_vring_addr: the acceptance path (addresses inside a guest region, guest->host address
+// translation) needs a populated GuestMemoryMmap; its region lookup did not finish under CBMC (1.1M steps,
+// no verdict in 400 s with one region) and is NOT covered.  What is covered: over a guest memory without
+// regions every configuration is refused and no ioctl is issued (in particular zero / non-power-of-two /
+// over-maximum sizes and the log flag without a log address).
+// @harness props=C19 tier=quick reach=off bound="set_vring_addr (kernel vhost) over a guest memory without regions: all ring sizes/addresses/flags/log address; refused before any ioctl" stubs="vmm_sys_util::ioctl::*"
+k_proof! { fn c19_vring_addr_refused() {
+    let k = mk();
+    let qi: usize = kani::any();
+    let c = VringConfigData {
+        queue_max_size: kani::any(), queue_size: kani::any(), flags: kani::any(),
+        desc_table_addr: kani::any(), used_ring_addr: kani::any(), avail_ring_addr: kani::any(),
+        log_addr: if kani::any() { Some(kani::any()) } else { None },
+    };
+    let valid = k.is_valid(&c);
+    assert!(!valid, "C19: no ring can be valid when no guest address is mapped");
+    let r = k.set_vring_addr(qi, &c);
+    kani::cover!(r.is_err());
+    assert!(r.is_err() && kg().calls == 0, "C19: refused ring configurations issue no ioctl");
+    std::mem::forget(r);
+} }
+
+// The IOTLB *writer* (send_iotlb_msg / dma_map / dma_unmap) calls write(2) directly; Kani 0.68 can neither
+// model nor stub foreign functions (measured: `#[kani::stub(libc::write, ..)]` is registered but not applied),
+// so that clause of C19 is not covered.  The parsers are:
+// @harness props=C19 tier=quick reach=off bound="IOTLB message parsers (v1 and v2): all iova/size/uaddr values, permission codes 0..=3, type codes 0..=6, both message type words" stubs="-"
+k_proof! { fn c19_iotlb_parse() {
+    let perm: u8 = kani::any();
+    kani::assume(perm <= 3);
+    let ty: u8 = kani::any();
+    kani::assume(ty <= 6);
+    let (iova, size, ua): (u64, u64, u64) = (kani::any(), kani::any(), kani::any());
+    let tword: u32 = kani::any();
+    let mut b1 = [0u8; uapi::USZ_MSG];
+    let mut b2 = [0u8; uapi::USZ_MSG_V2];
+    b1[uapi::UOFF_MSG_TYPE..uapi::UOFF_MSG_TYPE + 4].copy_from_slice(&tword.to_le_bytes());
+    b2[uapi::UOFF_MSG_V2_TYPE..uapi::UOFF_MSG_V2_TYPE + 4].copy_from_slice(&tword.to_le_bytes());
+    for (buf, io) in [(&mut b1[..], uapi::UOFF_MSG_IOTLB), (&mut b2[..], uapi::UOFF_MSG_V2_IOTLB)] {
+        buf[io + uapi::UOFF_IOTLB_IOVA..io + uapi::UOFF_IOTLB_IOVA + 8].copy_from_slice(&iova.to_le_bytes());
+        buf[io + uapi::UOFF_IOTLB_SIZE..io + uapi::UOFF_IOTLB_SIZE + 8].copy_from_slice(&size.to_le_bytes());
+        buf[io + uapi::UOFF_IOTLB_UADDR..io + uapi::UOFF_IOTLB_UADDR + 8].copy_from_slice(&ua.to_le_bytes());
+        buf[io + uapi::UOFF_IOTLB_PERM] = perm;
+        buf[io + uapi::UOFF_IOTLB_TYPE] = ty;
+    }
+    // SAFETY: plain old data of exactly the UAPI sizes
+    let m1: vhost_msg = unsafe { core::ptr::read_unaligned(b1.as_ptr() as *const vhost_msg) };
+    let m2: vhost_msg_v2 = unsafe { core::ptr::read_unaligned(b2.as_ptr() as *const vhost_msg_v2) };
+    assert!(core::mem::size_of::<vhost_msg>() == uapi::USZ_MSG && core::mem::size_of::<vhost_msg_v2>() == uapi::USZ_MSG_V2, "C19: binding struct sizes = UAPI");
+    let mut o1 = VhostIotlbMsg::default();
+    let mut o2 = VhostIotlbMsg::default();
+    let r1 = m1.parse(&mut o1);
+    let r2 = m2.parse(&mut o2);
+    kani::cover!(r1.is_ok());
+    kani::cover!(r2.is_ok());
+    assert!(r1.is_ok() == (tword == uapi::U_VHOST_IOTLB_MSG && ty != 0), "C19: v1 parser accepts exactly v1 messages with a defined type");
+    assert!(r2.is_ok() == (tword == uapi::U_VHOST_IOTLB_MSG_V2 && ty != 0), "C19: v2 parser accepts exactly v2 messages with a defined type");
+    if r1.is_ok() {
+        assert!(o1.iova == iova && o1.size == size && o1.userspace_addr == ua && o1.perm as u8 == perm && o1.msg_type as u8 == ty, "C19: v1 fields at UAPI offsets");
+    }
+    if r2.is_ok() {
+        assert!(o2.iova == iova && o2.size == size && o2.userspace_addr == ua && o2.perm as u8 == perm && o2.msg_type as u8 == ty, "C19: v2 fields at UAPI offsets");
+    }
+    std::mem::forget(r1);
+    std::mem::forget(r2);
+} }
